@@ -424,6 +424,9 @@ func genC10(r *vh.Runner) {
 	// block is decrypted and split before its tag is checked): set them, in
 	// flight, to every value around what is left of the message
 	for _, cfg := range []string{"single-cert", "multi-vhost"} {
+		r.Case(cfg+"/hostile-sni", map[string]any{"config": cfg}, func(c *vh.Case) {
+			run(c, func() { hostileSNIRun(r, c, cfg) })
+		})
 		r.Case(cfg+"/malleable-lengths", map[string]any{"config": cfg}, func(c *vh.Case) {
 			run(c, func() { malleableRun(r, c, cfg) })
 		})
@@ -788,6 +791,82 @@ func hopserverNamesRun(r *vh.Runner, c *vh.Case, b int) {
 		return
 	}
 	r.Count("hopserver_control_handshakes_ok", 1)
+}
+
+// hostileSNIRun: the harness plays an anonymous client itself (verif exports):
+// an honest ClientHello for its own KEM key, then a ClientAck whose cookie,
+// transcript and MAC are valid and whose encrypted server-name field holds a
+// name block no encoder produces (block size, identifier type and label length
+// in every combination around each other and around the ends of their range).
+func hostileSNIRun(r *vh.Runner, c *vh.Case, cfg string) {
+	w := newWorldFor(cfg)
+	defer closeServer(c, w)
+	est, err := handshakeTo(w, w.hidden)
+	if err != nil {
+		c.Inconclusive("setup handshake failed: " + err.Error())
+		return
+	}
+	defer est.cl.Close()
+	var blocks [][]byte
+	for _, bs := range []int{0, 1, 2, 3, 4, 5, 17, 254, 255} {
+		lens := map[int]bool{0: true, 1: true, 252: true, 253: true, 254: true, 255: true}
+		for d := -5; d <= 1; d++ {
+			if bs+d >= 0 && bs+d <= 255 {
+				lens[bs+d] = true
+			}
+		}
+		for l := range lens {
+			for _, ty := range []byte{0, 1, 3, 0x7f} {
+				b := append([]byte{byte(bs), ty, byte(l)}, bytes.Repeat([]byte{'x'}, 253)...)
+				blocks = append(blocks, b)
+			}
+		}
+	}
+	n, answered := 0, 0
+	buf := make([]byte, 65536)
+	for _, sni := range blocks {
+		w.next++
+		ep := w.net.Listen(simnet.Addr(w.next, 30000+w.next%20000))
+		kem, err := keys.GenerateKEMKeyPair(rand.Reader)
+		if err != nil {
+			c.Inconclusive("kem: " + err.Error())
+			return
+		}
+		pub, _ := kem.Public.MarshalBinary()
+		hello, _ := transport.VerifClientHello(kem)
+		ep.WriteMsgUDP(hello, nil, w.srvAddr)
+		ep.SetReadDeadline(time.Now().Add(time.Second))
+		m, _, _, _, err := ep.ReadMsgUDP(buf, nil)
+		if err != nil || m != transport.HeaderLen+transport.KemCtLen+transport.PQCookieLen+transport.MacLen || buf[0] != 0x02 {
+			ep.Close()
+			r.Count("hostile_sni_no_server_hello", 1) // a hidden-only server stays silent
+			continue
+		}
+		k, err := kem.Decapsulate(buf[transport.HeaderLen : transport.HeaderLen+transport.KemCtLen])
+		if err != nil {
+			ep.Close()
+			continue
+		}
+		cookie := append([]byte(nil), buf[transport.HeaderLen+transport.KemCtLen:transport.HeaderLen+transport.KemCtLen+transport.PQCookieLen]...)
+		ack, err := transport.VerifClientAckRawSNI(pub, k, cookie, sni)
+		if err != nil {
+			ep.Close()
+			continue
+		}
+		ep.WriteMsgUDP(ack, nil, w.srvAddr)
+		ep.SetReadDeadline(time.Now().Add(100 * time.Millisecond))
+		if _, _, _, _, err := ep.ReadMsgUDP(buf, nil); err == nil {
+			answered++
+		}
+		ep.Close()
+		n++
+	}
+	r.Count("evaluations", int64(n))
+	r.Count("datagrams_injected", int64(n))
+	r.Count("client_acks_with_hostile_name_block", int64(n))
+	r.Count("client_acks_with_hostile_name_block_answered", int64(answered))
+	r.NontrivialN(int64(n))
+	probe(r, c, w, est, "hostile-sni", map[string]any{"config": cfg, "name_blocks": len(blocks)})
 }
 
 // malleableRun: an honest discoverable handshake in which one message is
